@@ -22,7 +22,7 @@
    `Strict` selects the exact predecessor sets of the life cycle (TRUE: design, whole-system
    executions) or their prefix-closed, stage-monotone weakening (FALSE: executions in which a test
    drives one layer alone, so that stages another layer would have produced are absent). *)
-EXTENDS Naturals, Sequences, FiniteSets, TLC
+EXTENDS Integers, Sequences, FiniteSets, TLC
 
 CONSTANTS Strict,          \* BOOLEAN
           Deviation,       \* design half: "none", or a named deviation that TLC must refute (non-vacuity of the invariants)
@@ -39,8 +39,9 @@ VARIABLES cnt,     \* stream key -> frames of that stream in the log (truth)
           cached,  \* stream id -> lines in its full sidecar
           recd,    \* <<stream, seq>> recorded in an emitter's late-join buffer
           execs,   \* workspace-mutating executions in progress (tool call ids, task ids)
+          tend,    \* <<task, output stream>> -> end of the stored range of its last output frame
           bad      \* violated guards: <<position, name>>
-mvars == <<cnt, msgs, mwhere, run, sess, job, task, creq, cached, recd, execs, bad>>
+mvars == <<cnt, msgs, mwhere, run, sess, job, task, creq, cached, recd, execs, tend, bad>>
 
 Get(f, k, d) == IF k \in DOMAIN f THEN f[k] ELSE d
 Put(f, k, v) == [x \in DOMAIN f \cup {k} |-> IF x = k THEN v ELSE f[x]]
@@ -48,7 +49,7 @@ Empty == [x \in {} |-> "none"]
 Zero == [x \in {} |-> 0]
 
 MInit == /\ cnt = Zero /\ msgs = Empty /\ mwhere = [x \in {} |-> <<"", 0>>] /\ run = Empty /\ sess = Empty /\ job = Empty /\ task = Empty
-         /\ creq = {} /\ cached = Zero /\ recd = {} /\ execs = {} /\ bad = {}
+         /\ creq = {} /\ cached = Zero /\ recd = {} /\ execs = {} /\ tend = [x \in {} |-> 0] /\ bad = {}
 
 Rank == [none |-> 0, spawned |-> 1, selected |-> 2, compiled |-> 3, effects |-> 4, cursor |-> 5, ended |-> 6]
 Flags(pos, fs) == bad' = bad \cup {<<pos, f[2]>> : f \in {g \in fs : ~g[1]}}
@@ -70,7 +71,7 @@ StageOf(t) == CASE t = "sel" -> "selected" [] t = "comp" -> "compiled" [] t = "f
 \* ------------------------------------------------------------------ one frame whose line reached the log
 \* f = [sk, s, seq, t, r, m, j, st, tid, pt, ps, pm]: stream kind, stream id, seq, frame type (short), run id,
 \* message id, job id, task status, tool call id, and for lineage frames the source thread, the cut's seq and
-\* message id ("" / 0 where a field does not apply).
+\* message id, and for task output frames the output stream and the stored range (os, off, nb) ("" / 0 / -1 where a field does not apply).
 Frame(f, pos) ==
   LET k == Key(f)
       n == Get(cnt, k, 0)
@@ -93,7 +94,9 @@ Frame(f, pos) ==
         ELSE IF isT THEN {<<(f.t = "tspawn") = (Get(task, f.s, "none") = "none"), "TaskOpensWithSpawnOnly">>,
                           <<Get(task, f.s, "none") # "terminal", "FrameAfterTerminal">>,
                           <<(f.t = "tstatus" /\ f.st = "running") => Get(task, f.s, "none") # "running", "RunningAtMostOnce">>,
-                          <<(f.t = "tcancelled" \/ (f.t = "tstatus" /\ f.st = "cancelled")) => f.s \in creq, "CancelRecordedFirst">>}
+                          <<(f.t = "tcancelled" \/ (f.t = "tstatus" /\ f.st = "cancelled")) => f.s \in creq, "CancelRecordedFirst">>,
+                          \* the stored ranges of one output stream are consecutive: each starts where the previous one ended
+                          <<(f.t = "tout" /\ f.off >= 0) => f.off = Get(tend, <<f.s, f.os>>, 0), "RangesConsecutive">>}
         ELSE {}
       life ==
         IF ~isC THEN {}
@@ -125,29 +128,30 @@ Frame(f, pos) ==
                 ELSE Put(task, f.s, IF Get(task, f.s, "none") \in {"none"} THEN "spawned" ELSE Get(task, f.s, "none"))
      /\ creq' = IF isT /\ f.t = "tcancelreq" THEN creq \cup {f.s} ELSE creq
      /\ UNCHANGED <<cached, recd, execs>>
+     /\ tend' = IF isT /\ f.t = "tout" /\ f.off >= 0 THEN Put(tend, <<f.s, f.os>>, f.off + f.nb) ELSE tend
 
 \* a workspace-mutating execution (a tool call that needs the permit, a task's process) begins / ends
 XBegin(id, pos) == /\ Flags(pos, {<<execs = {}, "NoOverlap">>}) /\ execs' = execs \cup {id}
-                   /\ UNCHANGED <<cnt, msgs, mwhere, run, sess, job, task, creq, cached, recd>>
-XEnd(id, pos) == /\ execs' = execs \ {id} /\ UNCHANGED <<cnt, msgs, mwhere, run, sess, job, task, creq, cached, recd, bad>>
+                   /\ UNCHANGED <<cnt, msgs, mwhere, run, sess, job, task, creq, cached, recd, tend>>
+XEnd(id, pos) == /\ execs' = execs \ {id} /\ UNCHANGED <<cnt, msgs, mwhere, run, sess, job, task, creq, cached, recd, tend, bad>>
 
 \* a line of frame seq q of continuity stream s reached the full sidecar: the truth log has it already,
 \* and the sidecar grows one frame at a time
 CacheAppend(s, q, pos) ==
   /\ Flags(pos, {<<q < Get(cnt, "continuity:" \o s, 0), "CacheNeverAheadOfTruth">>})
   /\ cached' = Put(cached, s, q + 1)
-  /\ UNCHANGED <<cnt, msgs, mwhere, run, sess, job, task, creq, recd, execs>>
+  /\ UNCHANGED <<cnt, msgs, mwhere, run, sess, job, task, creq, recd, execs, tend>>
 
 \* an emitter put frame <<s, q>> into its late-join buffer / handed it to the live channel
-Recorded(s, q, pos) == /\ recd' = recd \cup {<<s, q>>} /\ UNCHANGED <<cnt, msgs, mwhere, run, sess, job, task, creq, cached, execs, bad>>
+Recorded(s, q, pos) == /\ recd' = recd \cup {<<s, q>>} /\ UNCHANGED <<cnt, msgs, mwhere, run, sess, job, task, creq, cached, execs, tend, bad>>
 Published(s, q, pos) == /\ Flags(pos, {<<<<s, q>> \in recd, "RecordedBeforePublished">>})
-                        /\ UNCHANGED <<cnt, msgs, mwhere, run, sess, job, task, creq, cached, recd, execs>>
+                        /\ UNCHANGED <<cnt, msgs, mwhere, run, sess, job, task, creq, cached, recd, execs, tend>>
 
 \* the per-stream snapshot (sessions, tasks) was written with n frames: it holds every frame of the stream that is in the log
 Snapshot(s, n, pos) ==
   LET inlog == Get(cnt, "session:" \o s, 0) + Get(cnt, "task:" \o s, 0) IN
   /\ Flags(pos, {<<IF Strict THEN inlog = n ELSE inlog \in {0, n}, "SnapshotHasEveryLoggedFrame">>})
-  /\ UNCHANGED <<cnt, msgs, mwhere, run, sess, job, task, creq, cached, recd, execs>>
+  /\ UNCHANGED <<cnt, msgs, mwhere, run, sess, job, task, creq, cached, recd, execs, tend>>
 
 \* ================================================================== DESIGN half
 VARIABLES pc,      \* actor -> program counter
@@ -159,7 +163,7 @@ vars == <<mvars, dvars>>
 
 Actors == Runs \cup Jobs \cup Tasks
 Th(a) == ThreadOf[a]
-F(sk, s, t, r, m, j, st) == [sk |-> sk, s |-> s, seq |-> Get(cnt, sk \o ":" \o s, 0), t |-> t, r |-> r, m |-> m, j |-> j, st |-> st, tid |-> IF t = "fx" THEN r ELSE "", pt |-> "", ps |-> 0, pm |-> ""]
+F(sk, s, t, r, m, j, st) == [sk |-> sk, s |-> s, seq |-> Get(cnt, sk \o ":" \o s, 0), t |-> t, r |-> r, m |-> m, j |-> j, st |-> st, tid |-> IF t = "fx" THEN r ELSE "", pt |-> "", ps |-> 0, pm |-> "", os |-> "", off |-> -1, nb |-> 0]
 Go(a, from, to) == pc[a] = from /\ pc' = [pc EXCEPT ![a] = to]
 Keep == UNCHANGED <<holder, owed, fxlog>>
 ThreadOpen(t) == Get(cnt, "continuity:" \o t, 0) > 0
